@@ -107,7 +107,10 @@ type c05Wire struct {
 	Stream  string   `json:"stream_hex,omitempty"`
 	Updates []string `json:"update_bodies_hex,omitempty"` // batch of UPDATE bodies run through a full decoder plugin
 	Fin     bool     `json:"fin"`
-	Note    string   `json:"note,omitempty"`
+	// Hold: the remote neither reads on nor closes after its input; it keeps the connection open, silent,
+	// until Server.Close has returned (a peer that does not hang up when told to)
+	Hold bool   `json:"hold,omitempty"`
+	Note string `json:"note,omitempty"`
 }
 
 func c05WireRun(cs c05Wire, trace bool) (rule, msg string, w *world.World) {
@@ -144,6 +147,11 @@ func c05WireRun(cs c05Wire, trace bool) (rule, msg string, w *world.World) {
 			}
 			if cs.Fin {
 				r.C.CloseWrite()
+			}
+			if cs.Hold {
+				w.SetFlag("input-sent")
+				w.WaitFlag("lib-closed")
+				return
 			}
 			r.Deadline(3 * time.Second)
 			r.Drain()
@@ -184,8 +192,13 @@ func c05WireRun(cs c05Wire, trace bool) (rule, msg string, w *world.World) {
 		}
 		vrt.NewTimer(10 * time.Second)
 		dl := vrt.Cur().Now() + int64(10*time.Second)
-		vrt.WaitLog("attack-done", func() bool { return w.AllRemotesDone(1) || vrt.Cur().Now() >= dl })
+		vrt.WaitLog("attack-done", func() bool {
+			return w.AllRemotesDone(1) || vrt.Cur().Now() >= dl || (cs.Hold && w.Flag("input-sent"))
+		})
 		vrt.LogTouch()
+		if cs.Hold {
+			vrt.Sleep(2 * time.Second) // corebgp has answered whatever it answers; the remote just sits there
+		}
 		// liveness probe: the other peer still establishes
 		if c, err := w.NW.DialIn("10.0.0.3:40002", libAddr); err == nil {
 			r := w.NewRemote(c, "P2")
@@ -195,6 +208,7 @@ func c05WireRun(cs c05Wire, trace bool) (rule, msg string, w *world.World) {
 		}
 		w.Close()
 		w.WaitServeDone()
+		w.SetFlag("lib-closed")
 		vrt.WaitQuiescent()
 		for _, g := range vrt.Cur().LiveLib() {
 			leaks = append(leaks, g.Name()+"@"+g.PendingSite())
@@ -681,6 +695,9 @@ func c05Check(c *harness.Ctx) {
 				if !runWire(c05Wire{State: st, Inbound: inbound, Stream: hex.EncodeToString(s), Fin: i%2 == 0 && i >= nPlain}) {
 					return
 				}
+				if !runWire(c05Wire{State: st, Inbound: inbound, Stream: hex.EncodeToString(s), Hold: true, Note: "remote stays connected and silent until Close has returned"}) {
+					return
+				}
 			}
 			for _, s := range truncs {
 				if !runWire(c05Wire{State: st, Inbound: inbound, Stream: hex.EncodeToString(s), Fin: true, Note: "truncation+FIN"}) {
@@ -769,6 +786,15 @@ func c05Check(c *harness.Ctx) {
 			return
 		}
 	}
+	// the peer ends the session while plugin goroutines are blocked in WriteUpdate behind a full window
+	for i, ev := range c04StallEvents {
+		if !c.Mine(i + 5) {
+			continue
+		}
+		if !exploreScn(c, "C05", c04StallEventScn("C05", ev, 1)) {
+			return
+		}
+	}
 	frontier := [][]int{{}}
 	k := 0
 	for d := 0; d < maxOps; d++ {
@@ -820,6 +846,9 @@ func init() {
 						if p.name() == name {
 							return c04ScnFor("C05", p, 2)
 						}
+					}
+					if s := c04StallEventLookup("C05", name); s != nil {
+						return s
 					}
 					if s := c01Lookup(name); s != nil && (strings.HasPrefix(name, "active/") || strings.HasPrefix(name, "passive/")) {
 						for _, p := range c01MatrixLate() {
